@@ -50,7 +50,8 @@ void NiAVObject::Sync(NiStreamReversible& stream) {
 	if (stream.GetVersion().Stream() <= 26) {
 		auto flagsShort = static_cast<uint16_t>(flags);
 		stream.Sync(flagsShort);
-		flags = flagsShort;
+		if (stream.GetMode() == NiStreamReversible::Mode::Reading)
+			flags = flagsShort;
 	}
 	else
 		stream.Sync(flags);
